@@ -282,12 +282,15 @@ func c11Concurrent(c *core.Ctx, k storeKind, ns string) bool {
 		})
 	}
 	if bst != nil && !k.Bare {
+		// several BeforeChange listeners; the vetoing one is neither first nor last
+		bst.BeforeChange(func(id string, before, after interface{}) error { return nil })
 		bst.BeforeChange(func(id string, before, after interface{}) error {
 			if after != nil && valVeto(after) {
 				return errVeto
 			}
 			return nil
 		})
+		bst.BeforeChange(func(id string, before, after interface{}) error { return nil })
 	}
 	// open-transaction occupancy
 	var omu sync.Mutex
@@ -527,12 +530,15 @@ func c11Sequential(c *core.Ctx, k storeKind, ns string) bool {
 		})
 	}
 	if bst != nil && !k.Bare {
+		// several BeforeChange listeners; the vetoing one is neither first nor last
+		bst.BeforeChange(func(id string, before, after interface{}) error { return nil })
 		bst.BeforeChange(func(id string, before, after interface{}) error {
 			if after != nil && valVeto(after) {
 				return errVeto
 			}
 			return nil
 		})
+		bst.BeforeChange(func(id string, before, after interface{}) error { return nil })
 	}
 	genIDs := 0
 	if ms, ok := st.(*mockstore.Store); ok && r.Intn(2) == 0 && !k.Bare { // the generated id is learnt from the callback
